@@ -17,6 +17,7 @@ import traceback
 from . import REPO, VERIF
 
 EPISODE_TIMEOUT = 90
+REAL_FORK = os.fork        # lanes trap os.fork; oracles that need a fresh process use this
 MAX_SHRINK = 6
 LANES = int(os.environ.get("PPSIM_LANES", "16"))
 
@@ -112,7 +113,7 @@ def _trap_process_creation():
 def run_in_child(module, ep, keep_log=False, timeout=EPISODE_TIMEOUT, trap=True):
     """fork a fresh child from this (warm) process, execute the episode there, return the outcome"""
     r, w = os.pipe()
-    pid = os.fork()
+    pid = REAL_FORK()
     if pid == 0:
         code = 0
         try:
@@ -250,7 +251,7 @@ class _Lane:
     def start(self):
         p2c_r, p2c_w = os.pipe()
         c2p_r, c2p_w = os.pipe()
-        pid = os.fork()
+        pid = REAL_FORK()
         if pid == 0:
             try:
                 os.close(p2c_w)
@@ -479,6 +480,21 @@ def replay_fresh_process(paths):
 # ---------------------------------------------------------------------------------------------
 # the check driver
 # ---------------------------------------------------------------------------------------------
+def _quiet(fn):
+    """run fn() with the process' stdout (fd 1) pointed at /dev/null: pandapower prints from solvers"""
+    sys.stdout.flush()
+    saved = os.dup(1)
+    dn = os.open(os.devnull, os.O_WRONLY)
+    try:
+        os.dup2(dn, 1)
+        return fn()
+    finally:
+        sys.stdout.flush()
+        os.dup2(saved, 1)
+        os.close(saved)
+        os.close(dn)
+
+
 def load_module(prop):
     return importlib.import_module(f"ppsim.props.{prop.lower()}")
 
@@ -499,10 +515,10 @@ def run_check(prop, tier, verif_seed, budget=None, wall_cap=None, selftest=True)
     module = load_module(prop)
     from . import tracer
     tracer.build_recovery_index()
-    module.warm()
+    _quiet(module.warm)
     n_total = budget or module.BUDGET[tier]
     wall_cap = wall_cap or module.WALL_CAP[tier]
-    lanes = Lanes(module)
+    lanes = Lanes(module, n=min(LANES, getattr(module, "LANES", LANES)))
     try:
         return _run_check(prop, tier, verif_seed, master, module, lanes, n_total, wall_cap, t0, selftest)
     finally:
@@ -726,7 +742,7 @@ def cmd_digests(prop, tier, indices, verif_seed):
     module = load_module(prop)
     from . import tracer
     tracer.build_recovery_index()
-    module.warm()
+    _quiet(module.warm)
     master = master_seed(prop, tier, verif_seed)
     lanes = Lanes(module, n=int(os.environ.get("PPSIM_LANES", "4")))
     try:
